@@ -410,6 +410,36 @@ static std::vector<double> run_framed(const Proc& p, const std::vector<double>& 
     return out;
 }
 
+//the same framed run with calls of an inadmissible length (not a multiple of the granule) attempted at some frame boundaries: each
+//must be rejected with an exception and is not part of the stream. Returns false if such a call was accepted (then nothing is judged).
+static bool run_framed_with_rejects(const Proc& p, const std::vector<double>& stream, const std::vector<int>& frames, vh::Rng& r, std::vector<double>& out, int* rejected) {
+    Feed f = p.make();
+    out.clear();
+    size_t pos = 0;
+    std::vector<double> junk(size_t(3 * p.granule + 8) * p.width);
+    for (auto& v : junk) {
+        v = 4 * r.gauss();
+    }
+    for (int g : frames) {
+        if (r.below(3) == 0) {
+            const int bad = int(r.range(1, 3 * p.granule));
+            if (bad % p.granule != 0) {
+                std::vector<double> tmp;
+                try {
+                    f(junk.data(), bad, tmp);
+                    return false;
+                } catch (const std::exception&) {
+                    ++*rejected;
+                }
+            }
+        }
+        const int ns = g * p.granule;
+        f(stream.data() + pos * p.width, ns, out);
+        pos += size_t(ns);
+    }
+    return true;
+}
+
 int main(int argc, char** argv) {
     vh::init(argc, argv, "C06");
     const bool thorough = vh::g.thorough();
@@ -495,6 +525,16 @@ int main(int argc, char** argv) {
             vh::obs_add("random_framings");
             vh::obs_max("longest_stream_samples", double(ng) * p.granule);
             compare(p, "random framing", whole, framed, show(fr));
+            if (p.granule > 1) {
+                std::vector<double> fr2;
+                int rejected = 0;
+                if (run_framed_with_rejects(p, stream, fr, r, fr2, &rejected)) {
+                    vh::obs_add("rejected_calls_inside_framed_runs", rejected);
+                    compare(p, "random framing with rejected calls in between", whole, fr2, show(fr));
+                } else {
+                    vh::skip("inadmissible_frame_length_accepted");
+                }
+            }
             if (pi == 0 && t == 0) {
                 vh::sample(vh::fmt("%s [%s] stream of %d granules framed as %s", p.name.c_str(), p.cfg.c_str(), ng, show(fr).c_str()));
             }
